@@ -30,16 +30,19 @@ func zzCPU(c *corev1.Container) int64 {
 }
 
 type zzC10Input struct {
-	affinityShape string // nil | no-node-affinity | no-required | one-term | term-with-name
-	nContainers   int
-	annotation    string // "" | r1 | r2 | malformed      (override of container "agent" on the node)
-	setting       string // "" | agent | sidecar         (container the valid setting gives resources to)
-	addAffinity   bool
-	strayAnnotation bool // the node also carries an override for a container the template does not have (a leftover)
-	tolerations   string // "" | catch-all | narrow-seconds | narrow-value | other-effect   (tolerations of the template)
+	affinityShape   string // nil | no-node-affinity | no-required | one-term | term-with-name
+	nContainers     int
+	annotation      string // "" | r1 | r2 | malformed      (override of container "agent" on the node)
+	setting         string // "" | agent | sidecar         (container the valid setting gives resources to)
+	addAffinity     bool
+	strayAnnotation bool   // the node also carries an override for a container the template does not have (a leftover)
+	tolerations     string // "" | catch-all | narrow-seconds | narrow-value | other-effect   (tolerations of the template)
 }
 
-func zzC10Pick() zzC10Input {
+// crossTolerations: vary the template's tolerations together with every affinity shape (the creation
+// harness), or only with the plain one (the round-trip harness, where the two are read by
+// different code: the cross product only multiplies paths).
+func zzC10Pick(crossTolerations bool) zzC10Input {
 	in := zzC10Input{nContainers: 1, addAffinity: nondet.Bool("addNodeAffinity")}
 	switch nondet.String("affinity", "nil", "no-node-affinity", "no-required", "one-term", "term-with-name", "name-then-plain", "plain-then-name") {
 	case "name-then-plain":
@@ -86,6 +89,9 @@ func zzC10Pick() zzC10Input {
 		in.setting = "agent"
 	case "sidecar":
 		in.setting = "sidecar"
+	}
+	if !crossTolerations && in.affinityShape != "nil" {
+		return in
 	}
 	switch nondet.String("templateTolerations", "", "catch-all", "narrow-seconds", "narrow-value", "other-effect") {
 	case "catch-all":
@@ -194,7 +200,7 @@ func zzC10Build(in zzC10Input) (*datadoghqv1alpha1.ExtendedDaemonSetReplicaSet, 
 // labelled, stamped with the template hash, given the DaemonSet tolerations and resources
 // resolved as node annotation, else valid setting, else template.
 func ZZ_C10_create() {
-	in := zzC10Pick()
+	in := zzC10Pick(true)
 	rs, node, setting := zzC10Build(in)
 	scheme := fakeapi.NewScheme()
 	pod, err := podutils.CreatePodFromDaemonSetReplicaSet(scheme, rs, node, setting, in.addAffinity)
@@ -289,7 +295,7 @@ func ZZ_C10_create() {
 // same inputs; it is recognised as outdated when the template hash, the node's override
 // annotation, or a resource value demanded by the applicable setting changes.
 func ZZ_C10_roundtrip() {
-	in := zzC10Pick()
+	in := zzC10Pick(nondet.Thorough())
 	rs, node, setting := zzC10Build(in)
 	pod, _ := podutils.CreatePodFromDaemonSetReplicaSet(fakeapi.NewScheme(), rs, node, setting, in.addAffinity)
 	ds := zzDaemonset(map[string]string{})
